@@ -6,5 +6,6 @@ export GOFLAGS=-mod=mod GOPROXY=off GOSUMDB=off GOTOOLCHAIN=local
 mkdir -p build/bin evidence replays
 cp /repo/go.sum harness/go.sum
 (cd harness && go build -tags verif -o ../build/bin/ ./cmd/...)
-(cd coq && coq_makefile -f _CoqProject -o Makefile >/dev/null && timeout 3000 make -j16)
+tools/mkcoqproject.sh
+(cd coq && timeout 3000 make -j16)
 echo setup done
